@@ -415,6 +415,7 @@ pub fn teval(args: &[String]) {
     far_from_origin(seed, cases);
     fast_tiny_steps();
     teval_just_after_step_end(seed);
+    near_start_values();
 }
 
 /// C10 / C05: a requested time a little beyond a step end (within the handler's 1e-12) and a terminal event between that
@@ -480,6 +481,32 @@ fn fast_tiny_steps() {
             }
             println!("{{\"kind\":\"te\",\"case\":{},\"problem\":\"y'={:e}y\",\"method\":\"{}\",\"x0\":0,\"xend\":{:e},\"n_requested\":21,\"status\":\"{}\",\"branch\":\"fast-tiny-steps\",\"finding_key\":\"{}\",\"ok\":{},\"why\":{:?}}}",
                 710000 + k, lam, method_name(method), xend, status, if why.is_empty() { "" } else { "c05-tiny-step-value" }, why.is_empty(), why);
+            k += 1;
+        }
+    }
+}
+
+/// C05: a requested time a hair after x0 (within the handler's 1e-12) carries the value of the step interpolant there, not the
+/// initial state: with a fast right-hand side the two differ by far more than the tolerance
+fn near_start_values() {
+    struct Fast(f64);
+    impl IVP for Fast { fn ode(&self, _x: f64, y: &[f64], d: &mut [f64]) { d[0] = self.0 * y[0]; } }
+    let mut k = 0;
+    for method in [Method::RK23, Method::DOPRI5, Method::DOP853, Method::RADAU, Method::BDF] {
+        for (lam, xend, pts) in [(-1e6, 1.0, vec![9e-13, 1.5e-12, 0.5]), (-1e9, 1e-9, vec![4e-13, 2e-12, 5e-10]), (-1e6, -1e-6, vec![-9e-13, -5e-12])] {
+            let mut o = Options::builder().method(method).rtol(1e-10).atol(1e-14).build();
+            o.t_eval = Some(pts.clone());
+            let (mut why, mut status) = (String::new(), String::new());
+            if let Ok(sol) = solve_ivp(&Fast(lam), 0.0, xend, &[1.0], o) {
+                status = format!("{:?}", sol.status);
+                for (t, y) in sol.t.iter().zip(sol.y.iter()) {
+                    let ex = (lam * t).exp();
+                    let bound = 1e3 * (sol.naccpt.max(1) as f64) * (1e-14 + 1e-10 * ex);
+                    if why.is_empty() && (y[0] - ex).abs() > bound { why = format!("requested t = {:e} (within 1e-12 of x0): reported {:?}, the solution there is {:?} (error {:.2e}, 1000 * naccpt * (atol + rtol |y|) = {:.2e}): the initial state was reported instead of the interpolant's value", t, y[0], ex, (y[0] - ex).abs(), bound); }
+                }
+            }
+            println!("{{\"kind\":\"te\",\"case\":{},\"problem\":\"y'={:e}y\",\"method\":\"{}\",\"x0\":0,\"xend\":{:e},\"n_requested\":{},\"status\":\"{}\",\"branch\":\"near-start-values\",\"finding_key\":\"{}\",\"ok\":{},\"why\":{:?}}}",
+                720000 + k, lam, method_name(method), xend, pts.len(), status, if why.is_empty() { "" } else { "c05-near-start-initial-state" }, why.is_empty(), why);
             k += 1;
         }
     }
